@@ -559,8 +559,10 @@ func (w *world) buildInfos(ref *epochLists) [][]*state.ShardValidatorInfo {
 	return out
 }
 
-// bodyFor builds the block body delivered to one node. With seed != 0 the entries (and miniblocks) are
-// permuted: the coordinator's result must not depend on the order in which its input maps get filled.
+// bodyFor builds the block body delivered to one node. With seed != 0 the peer miniblocks (one per shard)
+// come in a permuted order, so that the coordinator inserts the shards into its input maps in another
+// order; the entries inside a miniblock keep their order (all nodes of a real network see the same
+// sequence of entries per shard, and the order of a list is part of the input, not of how a map is built).
 func (w *world) bodyFor(seed int64) *block.Body {
 	body := &block.Body{}
 	mbs := make([][]*state.ShardValidatorInfo, len(w.infos))
@@ -580,14 +582,7 @@ func (w *world) bodyFor(seed int64) *block.Body {
 	}
 	for _, infos := range mbs {
 		mb := &block.MiniBlock{Type: block.PeerBlock, SenderShardID: metaID, ReceiverShardID: infos[0].ShardId}
-		idx := make([]int, len(infos))
-		for i := range idx {
-			idx[i] = i
-		}
-		if r != nil {
-			idx = r.Perm(len(infos))
-		}
-		for _, i := range idx {
+		for i := range infos {
 			b, err := w.marsh.Marshal(infos[i])
 			if err != nil {
 				w.c.HarnessErr("marshal validator info: %v", err)
